@@ -10,14 +10,20 @@ REGISTRATION = {
     "text": "Kernel-checked theorems over a Lean model of the model store (blob files keyed by digest, every other "
             "file of the blobs directory by name class, manifests readable/corrupt) and of blob upload, pull (download+verify "
             "loop with cache hits, against an in-memory registry whose blobs are honest or corrupted), create (FROM / "
-            "files, auto-detected template+params layers, TEMPLATE/SYSTEM/LICENSE/PARAMETERS overrides in the real "
-            "drop-then-store order), copy, delete and the startup sequence (fixBlobs, corrupt-manifest gate, "
+            "files, auto-detected template+params layers, TEMPLATE/SYSTEM/LICENSE/PARAMETERS/MESSAGE overrides in the real "
+            "drop-then-store order, OLLAMA_NOPRUNE), copy, delete and the startup sequence (fixBlobs, NOPRUNE and corrupt-manifest gates, "
             "PruneLayers per file-name class), for all stores, requests and Go-map iteration orders: the completeness "
             "invariant and the frame property are preserved; every listed model is complete and show answers 200 "
-            "along every history; after the startup prune exactly the referenced blobs remain and no file of any "
-            "other name class; no operation creates a case twin; a failed create changes no manifest. The theorems "
-            "are stated for the pinned and for the repaired variants of four findings (F16a, F16b, N1, N2); the "
-            "driver probes which variant the tree under test implements. The model is tied to the real gin handlers "
+            "along every history; a model that is the target of no operation of a history keeps its manifest and its "
+            "blobs, and the target of an operation is the requested name up to letter case (frame property stated on "
+            "the request); after the startup prune exactly the referenced blobs remain and no file of any "
+            "other name class (OLLAMA_NOPRUNE: nothing is removed by the start-up sequence or a pull); no operation of "
+            "the model's alphabet creates a case twin (NOT covered: the pull inside `create ... from` of a model that is "
+            "not in the store, which is tied by L1 as pullAt-then-createAt but is no operation of the step function — "
+            "on /repo it does create a twin, known finding N4); a failed create changes no manifest. The theorems "
+            "are stated for the pinned and for the repaired variants of five findings (F16a, F16b, N1, N2, N3); the "
+            "driver probes which variant the tree under test implements and the check requires every finding recorded "
+            "as fixed to be probed as repaired. The model is tied to the real gin handlers "
             "(streaming and non-streaming create) by random operation histories compared after every operation "
             "(result, listing, every manifest, every file of blobs/), and the property is evaluated on the real "
             "files (every blob re-hashed).",
@@ -27,7 +33,7 @@ REGISTRATION = {
             "auto-detected template/params bytes per pool file), template validity. Guards that remain on the "
             "repaired tree: files planted under a blob name hold that content (LitterOk/LegacyOk, non-API faults "
             "only). Registry manifests are assumed truthful about SIZES (PullOk; PullModel never checks them). Outside the model: the "
-            "pull protocol itself (C03), MESSAGES, adapters/projectors, safetensors, quantize, directories "
+            "pull protocol itself (C03), adapters/projectors, safetensors, quantize, directories "
             "inside blobs/, case-insensitive file systems. Tie 1 (decide over facts regenerated from the source): the "
             "digest pattern of GetBlobsPath and the startup sequence of Serve, which the driver transcribes.",
 }
@@ -88,6 +94,7 @@ THEOREMS = [
     "OllamaVerif.C04.pull_size_witness",
     "OllamaVerif.C04.pull_size_breaks_NameInv",
     "OllamaVerif.C04.failed_create_changes_nothing_repaired",
+    "OllamaVerif.C04.N4_from_pull_witness",
     # the guard about auto-detected layers (N2): met by every `from` create, void once N2 is repaired, decidable
     "OllamaVerif.C04.apartOp_of_from",
     "OllamaVerif.C04.apartOp_of_fixKeep",
@@ -111,6 +118,12 @@ THEOREMS = [
     "OllamaVerif.Tie.C04.blob_pattern",
     "OllamaVerif.Tie.C04.serve_startup_sequence",
 ]
+# theorems whose hypotheses name the PINNED (upstream, unrepaired) variant of a finding that is fixed in /repo: kept
+# as the record of what was true of that code, listed apart in the evidence (`theorems_pinned_variant`)
+PINNED_VARIANT = ["op_preserves_NameInv", "op_frame", "history_preserves_Inv", "prune_exact", "no_case_twins_partial",
+                  "reachable_no_twins", "F16a_delete_witness", "F16a_breaks_NameInv", "F16a_prune_witness",
+                  "F16b_twin_witness", "F16b_breaks_NoTwins", "N1_create_continues_witness", "N2_witness",
+                  "N2_breaks_NameInv", "N3_witness", "apartOp_of_from", "runGuard_of_B"]
 OVERLAY = {"server/zz_verif_c04_test.go": "server/zz_verif_c04_test.go"}
 
 # Branches of the model that the theorems talk about, named by the driver from what the REAL code did
@@ -241,6 +254,7 @@ def run(ctx):
             ctx.violation("correspondence-coverage", "",
                           "branches of the model never exercised by this run's histories: " + ", ".join(missing), no_input=True)
     ctx.coverage["variant_under_test"] = {k: bool(st.get("variant_" + k, 0)) for k in sorted(REPAIR_FLAG.values())}
+    ctx.coverage["theorems_pinned_variant"] = ["OllamaVerif.C04." + t for t in PINNED_VARIANT]
     ctx.coverage["variant_expected_fixed"] = must   # a probe that disagrees is the L2 failure `variant-regressed`
     ctx.l1(outdir)
     ctx.classify(ctx.l2(outdir))
